@@ -154,10 +154,36 @@ def r1(run, ctx):
         r = reach_under(cfg, c, is_future(False), avoid=rel, labels_excluded=('exc',))
         run.check('R1', cfg.exit.id not in r, 'a synchronous result releases the slot', f, c.ast)
     # the registered callback is _synchronized_cb bound to the arbiter
-    txt = norm_text(f.node)
-    run.check('R1', 'functools.partial(_synchronized_cb, arbiter)' in txt or
-              'partial(_synchronized_cb, arbiter)' in txt, 'the callback is _synchronized_cb '
-              'bound to the arbiter', f, reg[0].ast)
+    from sa.dataflow import reaching_defs
+    rdw = reaching_defs(ctx, f)
+
+    def frees_this_arbiter(e):
+        # partial(_synchronized_cb, arbiter) / lambda fut: _synchronized_cb(arbiter, fut)
+        for x in ast.walk(e):
+            if isinstance(x, ast.Call):
+                d = dotted(x.func) or ''
+                if d.endswith('partial') and len(x.args) >= 2 and \
+                        (dotted(x.args[0]) or '').endswith('_synchronized_cb') and \
+                        norm_text(x.args[1]) == 'arbiter':
+                    return True
+                if d.endswith('_synchronized_cb') and x.args and norm_text(x.args[0]) == 'arbiter':
+                    return True
+        return False
+    okcb = False
+    for rn in reg:
+        for c in rn.calls():
+            if astq.call_last(c) in ('future_add_done_callback', 'add_done_callback', 'add_future'):
+                for a in c.args:
+                    if any(frees_this_arbiter(alt.expr)
+                           for alt in rdw.expand(rn, a, stop=('arbiter',))):
+                        okcb = True
+    if not okcb:
+        # a nested def registered by name
+        for x in ast.walk(f.node):
+            if isinstance(x, ast.FunctionDef) and x is not f.node and frees_this_arbiter(x):
+                okcb = any(isinstance(a, ast.Name) and a.id == x.name
+                           for rn in reg for c in rn.calls() for a in c.args)
+    run.check('R1', okcb, 'the callback is _synchronized_cb bound to the arbiter', f, reg[0].ast)
     cb = ctx.fn('circus.util:_synchronized_cb')
     c2 = ctx.cfg(cb)
     rel2 = [n for n in ctx.live_nodes(cb) if n.kind == 'stmt' and isinstance(n.ast, ast.Assign)
